@@ -36,7 +36,13 @@ def influence_matrix_cases(chk, n_cases, exprs, expected, meta):
         dkmax = rng.choice([None, 1, 2, 5, 8])
         tau = rng.choice([None, 0.0, 0.17, 1.0, np.inf]) if dkmax is not None else None
         eps = rng.choice([1e-5, 2 ** -26])
-        par = oqupy.TempoParameters(dt=dt, epsrel=eps, dkmax=dkmax, add_correlation_time=tau)
+        if dkmax is not None and rng.random() < 0.4:
+            # the memory given as a time that need not be a multiple of dt: dkmax = round(tcut/dt)
+            tcut = (dkmax + rng.choice([0.0, 0.3, -0.3, 0.45])) * dt
+            par = oqupy.TempoParameters(dt=dt, epsrel=eps, tcut=tcut, add_correlation_time=tau)
+            dkmax = par.dkmax
+        else:
+            par = oqupy.TempoParameters(dt=dt, epsrel=eps, dkmax=dkmax, add_correlation_time=tau)
         dk = rng.randint(-8, 8)
         if dkmax is None and dk < 0:
             dk = -dk
@@ -180,7 +186,10 @@ def boson_search(chk, n_cases):
         dkmax = rng.choice([None, None, 1, 2, 3])
         tau = rng.choice([None, 0.0, 0.15, np.inf]) if dkmax is not None else None
         eps = 1e-7
-        par = oqupy.TempoParameters(dt=dt, epsrel=eps, dkmax=dkmax, add_correlation_time=tau)
+        if dkmax is not None and rng.random() < 0.4:
+            par = oqupy.TempoParameters(dt=dt, epsrel=eps, tcut=(dkmax + rng.choice([0.3, -0.3, 0.0])) * dt, add_correlation_time=tau)
+        else:
+            par = oqupy.TempoParameters(dt=dt, epsrel=eps, dkmax=dkmax, add_correlation_time=tau)
         bath = oqupy.Bath(O, corr)
         info = {"d": d, "o": list(o), "corr": ck, "T": T, "dt": dt, "n": n, "dkmax": dkmax, "tau_add": tau, "rotated": not np.allclose(V, np.eye(d))}
         try:
